@@ -263,12 +263,55 @@ fn run_gnupg(c: &(bool, bool)) -> Outcome {
         }
         Err(e) => Err(e.to_string()),
     };
-    match (gnupg, got) {
+    let mut o = match (gnupg, got) {
         (true, Ok(d)) if d == b"Hello, world!\n" => Outcome::ok("enabled:decrypts"),
         (true, other) => Outcome::bad("C15:gnupg-aead:enabled-but-not-decrypted", format!("{other:?}")),
         (false, Ok(_)) => Outcome::bad("C15:gnupg-aead:decrypted-without-opt-in", format!("legacy={legacy}")),
         (false, Err(_)) => Outcome::ok("disabled:refused"),
+    };
+    // the same container with the content key presented directly (as a v5 key, and as a
+    // v3/v4-style key naming the cipher): the packet type itself is behind the opt-in, whatever
+    // the session key came from; also through the decrypt_legacy entry point
+    let content_key: Option<Vec<u8>> = (|| {
+        let p = pgp::packet::PacketParser::new(&stream[..]).next()?.ok()?;
+        let pgp::packet::Packet::SymKeyEncryptedSessionKey(sk) = p else { return None };
+        let k = sk.s2k()?.derive_key(b"password", 16).ok()?;
+        match &sk.decrypt(k).ok()? {
+            PlainSessionKey::V5 { key } | PlainSessionKey::V3_4 { key, .. } | PlainSessionKey::V6 { key } => Some(key.as_ref().to_vec()),
+        }
+    })();
+    let Some(ck) = content_key else {
+        o.push("C15:gnupg-aead:vector-skesk-not-openable", String::new());
+        return o;
+    };
+    let ocb_only = cm::hexd("d44901070 20e5ed2bc1e470abe8f1d644c7a6c8a567b0f7701196611a154ba9c2574cd056284a8ef68035c623d93cc708a43211bb6eaf2b27f7c18d571bcd83b20add3a08b73af15b9a098");
+    for (name, sk) in [
+        ("v5 session key", PlainSessionKey::V5 { key: ck.clone().into() }),
+        ("v3/v4 session key", PlainSessionKey::V3_4 { sym_alg: pgp::crypto::sym::SymmetricKeyAlgorithm::AES128, key: ck.clone().into() }),
+    ] {
+        let mut opts = DecryptionOptions::new();
+        if gnupg {
+            opts = opts.enable_gnupg_aead();
+        }
+        if legacy {
+            opts = opts.enable_legacy();
+        }
+        let Ok(m) = Message::from_bytes(&ocb_only[..]) else { continue };
+        let ring = TheRing { session_keys: vec![sk], decrypt_options: opts, ..Default::default() };
+        let got = match m.decrypt_the_ring(ring, true) {
+            Ok((mut m, _)) => {
+                let mut out = Vec::new();
+                m.read_to_end(&mut out).map(|_| out).map_err(|e| e.to_string())
+            }
+            Err(e) => Err(e.to_string()),
+        };
+        match (gnupg, got) {
+            (false, Ok(_)) => o.push("C15:gnupg-aead:decrypted-without-opt-in", format!("{name} presented directly, legacy={legacy}")),
+            (true, Ok(d)) if d != b"Hello, world!\n" => o.push("C15:gnupg-aead:enabled-but-not-decrypted", format!("{name}: other plaintext")),
+            _ => {}
+        }
     }
+    o
 }
 
 // ------------------------------------------------------------------------------------------
@@ -328,7 +371,8 @@ fn verify_on_path(c: &SigCase) -> Result<Result<(), String>, String> {
     let mut hashed = time_subpacket();
     if let Some(v) = c.issuer_fp_version {
         let mut fp = pk.fingerprint().as_bytes().to_vec();
-        fp.resize(if v == 6 { 32 } else { 20 }, 0xEE);
+        // version 5 (LibrePGP) fingerprints are 32 octets long, like version 6 ones
+        fp.resize(if v == 6 || v == 5 { 32 } else { 20 }, 0xEE);
         let mut b = vec![v];
         b.extend_from_slice(&fp);
         hashed.extend_from_slice(&sigs::raw_subpacket(33, false, &b));
@@ -894,7 +938,7 @@ pub fn check(ctx: &Ctx) {
     ctx.run_space(
         "gnupg_aead_opt_in",
         true,
-        "LibrePGP SKESK v5 + OCB packet test vector: decrypts only with enable_gnupg_aead",
+        "LibrePGP SKESK v5 + OCB packet test vector x options {default, legacy, gnupg_aead, both}: decrypts only with enable_gnupg_aead - by password, and with the content key presented directly as a v5 / v3-v4 session key",
         vec![(false, false), (false, true), (true, false), (true, true)].into_par_iter(),
         run_gnupg,
     );
@@ -905,7 +949,7 @@ pub fn check(ctx: &Ctx) {
         for sig_version in [4u8, 6] {
             for path in PATHS {
                 sc.push(SigCase { key, sig_version, path, extra: None, issuer_fp_version: None });
-                for v in [4u8, 6] {
+                for v in [4u8, 6, 5, 3] {
                     sc.push(SigCase { key, sig_version, path, extra: None, issuer_fp_version: Some(v) });
                 }
             }
